@@ -402,8 +402,8 @@ fn consume_expr<'i>(
                         let mut pairs = pair.into_inner();
                         pairs.next().unwrap(); // opening_paren
                         let contents_pair = pairs.next().unwrap();
-                        let string =
-                            unescape(contents_pair.as_str()).expect("incorrect string literal");
+                        let string = unescape(contents_pair.as_str())
+                            .ok_or_else(|| invalid_literal(&contents_pair, "string"))?;
                         ParserNode {
                             expr: ParserExpr::PushLiteral(string[1..string.len() - 1].to_owned()),
                             span: contents_pair.clone().as_span(),
@@ -449,7 +449,8 @@ fn consume_expr<'i>(
                         span: pair.clone().as_span(),
                     },
                     Rule::string => {
-                        let string = unescape(pair.as_str()).expect("incorrect string literal");
+                        let string = unescape(pair.as_str())
+                            .ok_or_else(|| invalid_literal(&pair, "string"))?;
                         ParserNode {
                             expr: ParserExpr::Str(string[1..string.len() - 1].to_owned()),
                             span: pair.clone().as_span(),
@@ -460,7 +461,8 @@ fn consume_expr<'i>(
                         // comments may separate `^` from the literal, so the literal is read
                         // from the inner `string` pair, not from the whole text.
                         let literal = pair.clone().into_inner().next().unwrap();
-                        let string = unescape(literal.as_str()).expect("incorrect string literal");
+                        let string = unescape(literal.as_str())
+                            .ok_or_else(|| invalid_literal(&literal, "string"))?;
                         ParserNode {
                             expr: ParserExpr::Insens(string[1..string.len() - 1].to_owned()),
                             span: pair.clone().as_span(),
@@ -469,11 +471,13 @@ fn consume_expr<'i>(
                     Rule::range => {
                         let mut pairs = pair.into_inner();
                         let pair = pairs.next().unwrap();
-                        let start = unescape(pair.as_str()).expect("incorrect char literal");
+                        let start = unescape(pair.as_str())
+                            .ok_or_else(|| invalid_literal(&pair, "char"))?;
                         let start_pos = pair.clone().as_span().start_pos();
                         pairs.next();
                         let pair = pairs.next().unwrap();
-                        let end = unescape(pair.as_str()).expect("incorrect char literal");
+                        let end = unescape(pair.as_str())
+                            .ok_or_else(|| invalid_literal(&pair, "char"))?;
                         let end_pos = pair.clone().as_span().end_pos();
 
                         ParserNode {
@@ -711,6 +715,15 @@ fn consume_expr<'i>(
     };
 
     pratt.map_primary(term).map_infix(infix).parse(pairs)
+}
+
+fn invalid_literal(pair: &Pair<'_, Rule>, kind: &str) -> Vec<Error<Rule>> {
+    vec![Error::new_from_span(
+        ErrorVariant::CustomError {
+            message: format!("incorrect {kind} literal: escape is not a valid character"),
+        },
+        pair.as_span(),
+    )]
 }
 
 fn unescape(string: &str) -> Option<String> {
